@@ -589,6 +589,7 @@ class Gen(object):
         ntypes = r.choice([2, 3])
         self.types = [{'type': t, 'unique': r.random() < 0.7, 'reorderable': r.random() < 0.85} for t in range(ntypes)]
         ops, live = [], []
+        size = {}          # application id -> number of routes asked for so far (embedding an application into itself doubles it)
         nops = r.choice([2, 4, 6, 8]) if tier == 'quick' else r.choice([6, 12, 20, 40])
         for _ in range(nops):
             x = r.random()
@@ -599,18 +600,24 @@ class Gen(object):
                 ops.append(['new', env, self.entries(env, r.choice([0, 1, 2]), [n for n, _ in env['resources']], 3, fail)])
                 if fail is None:
                     live.append(env)
+                    size[env['id']] = sum(count_leaves(e) for e in ops[-1][2])
             elif x < 0.75:
                 env = r.choice(live)
                 self.top_names = [n for n, _ in env['resources']]
                 fail = r.choice(['need', 'pattern']) if r.random() < 0.3 else None
                 e = self.entries(env, r.choice([0, 0, 1, 2]), [n for n, _ in env['resources']], 3, fail)[-1]
                 ops.append(['add', env['id'], e, r.choice([None, None, 0, 1, 2, -1, -2, 7, -9])])
+                if fail is None:
+                    size[env['id']] = size.get(env['id'], 0) + count_leaves(e)
             else:
                 a, b2 = r.choice(live), r.choice(live)
                 if a is b2 and r.random() < 0.8 and len(live) > 1:
                     b2 = r.choice([x for x in live if x is not a])      # self-embedding stays in, but rarely
+                if size.get(a['id'], 0) + size.get(b2['id'], 0) > 150:
+                    continue              # finite, but far beyond what a case may cost: the table would double again
                 ops.append(['embed', a['id'], r.choice(['/m%d' % b2['id'], '/m/', '/']), b2['id'], r.random() < 0.3, r.random() < 0.6,
                             r.choice([None, None, 0, 1, -1])])
+                size[a['id']] = size.get(a['id'], 0) + size.get(b2['id'], 0)
         return {'ops': ops}
 
 
